@@ -118,14 +118,29 @@ def check_epoch(prop: str, res: Result, repo: Repo):
     t2 = repo.func("hexital.utils.timeframe", "timeframe_to_timedelta")
     want = {"S": "seconds", "T": "minutes", "H": "hours", "D": "days"}
     got = {}
-    for n in ast.walk(t2.node):
-        if isinstance(n, ast.If) and isinstance(n.test, ast.Call) and call_name(n.test) == "startswith" and n.test.args and isinstance(n.test.args[0], ast.Constant):
-            for s in n.body:
-                if isinstance(s, ast.Return) and isinstance(s.value, ast.Call) and call_name(s.value) == "timedelta" and len(s.value.keywords) == 1:
-                    kw = s.value.keywords[0]
-                    recv = ast.unparse(n.test.func.value) if isinstance(n.test.func, ast.Attribute) else "?"
-                    # the number is the rest of the very string whose prefix was tested
-                    got[n.test.args[0].value] = (kw.arg, ast.unparse(kw.value).replace(" ", "").replace(recv, "<tf>"))
+    from .structure import stmt_paths as _sp
+
+    def _prefix_test(test):
+        """(constant, receiver text, positive?) of a `<x>.startswith("K")` test, possibly negated"""
+        pos = True
+        while isinstance(test, ast.UnaryOp) and isinstance(test.op, ast.Not):
+            test, pos = test.operand, not pos
+        if isinstance(test, ast.Call) and call_name(test) == "startswith" and test.args and isinstance(test.args[0], ast.Constant) and isinstance(test.func, ast.Attribute):
+            return test.args[0].value, ast.unparse(test.func.value), pos
+        return None
+
+    for p in _sp(t2.node.body):
+        ret = next((x for x in reversed(p) if isinstance(x, ast.Return)), None)
+        if ret is None or not (isinstance(ret.value, ast.Call) and call_name(ret.value) == "timedelta" and len(ret.value.keywords) == 1):
+            continue
+        taken = [(_prefix_test(item[1].test), item[2]) for item in p if isinstance(item, tuple) and item[0] == "if" and _prefix_test(item[1].test) is not None]
+        holds = [(k, recv) for (k, recv, pos), truth in taken if pos == truth]
+        if not holds:
+            continue
+        k, recv = holds[-1]
+        kw = ret.value.keywords[0]
+        # the number is the rest of the very string whose prefix was tested
+        got[k] = (kw.arg, ast.unparse(kw.value).replace(" ", "").replace(recv, "<tf>"))
     for k, unit in want.items():
         if k in got and got[k][0] == unit and got[k][1] in ("int(<tf>[1:])",):
             res.ok(rule, {"site": t2.where, "unit": f"{k} -> timedelta({unit}=int(rest))"})
